@@ -83,8 +83,15 @@ def _gen_t(rng, classes):
     if r < 0.8:
         a, b = rng.choice(classes + ["int"]), ["CC", rng.choice(["evenname", "isk"])]
         return [rng.choice(["U", "I"]), a, b]
-    if r < 0.9:
+    if r < 0.87:
         return rng.choice([["L", 1], ["L", 2, 3], ["D", "int", "ge3"], ["D", "int", "even"]])
+    if r < 0.95:
+        # a class predicate *inside* a value-dependent combination, or as the bound of a condition: the class-level
+        # part of such a check must not be asked again per call either
+        cc = ["CC", rng.choice(["evenname", "isk", "nobase", "hasfly"])]
+        dep = rng.choice([["L", 1], ["L", 2, 3], ["D", "int", "ge3"], ["D", "object", "truthy"]])
+        return rng.choice([["U", dep, cc], ["U", cc, dep], ["I", cc, ["D", "object", "truthy"]], ["D", cc, "truthy"],
+                           ["U", ["D", cc, "truthy"], "str"]])
     return ["H", rng.choice(["fly", "bit_length"])]
 
 
